@@ -25,5 +25,6 @@ HOW TO WORK:
   * If you change a .c file, recompile with `/venv/bin/python /tmp/seedtools/rebuild_ext.py {wt}` (there is no Cython: do not edit .pyx files).
   * The existing test-suite: `cd {wt} && PYTHONPATH={wt} /venv/bin/python -m pytest -q -p no:cacheprovider --timeout=900 tests` (about 4 minutes; all 93 tests pass on the unmodified tree). It MUST still pass with each change applied (run it for each change; tests in tests/ must not be edited).
   * Work on one change at a time: apply, rebuild if needed, run demo (must FAIL), run test-suite (must pass), save `git diff > SEED/k/patch.diff`, then `git checkout -- dadi` (and rebuild if C was changed), run demo again (must PASS).
+  * Never use `git stash` (the stash is shared by all worktrees of the repository and sibling processes use it): keep changes as patch files (`git diff > x.diff`, `git checkout -- dadi`, `git apply x.diff`).
   * Finish with the worktree source reverted to HEAD (only the SEED directory added).
 Report briefly what the {n} changes are.""")
